@@ -59,7 +59,14 @@ ExitUncaught == /\ IsEv("exit") /\ ~fin /\ pend # 0 /\ Target(pend) = 0
                 /\ E.status > 0 /\ E.sig = 0 /\ E.diag = 1                \* failure status and a diagnostic
                 /\ UNCHANGED <<fr, pend, fin>>
 
-Next == Reset \/ End \/ Try \/ Throw \/ Handler \/ BodyEnd \/ HandlerEnd \/ After \/ Plain \/ Done \/ ExitOk \/ ExitUncaught
+(* filter F against thrown kind T over all kinds: the filtered handler runs exactly for F = T, with T bound; otherwise the *)
+(* enclosing catch-all receives T; the depth is restored either way                                                      *)
+Pair == /\ IsEv("pair") /\ UNCHANGED <<fr, pend, fin>>
+        /\ E.bound = E.t /\ E.d1 = E.d0
+        /\ IF E.f = E.t THEN E.inner = 1 /\ E.outer = 0 /\ E.after = 1
+           ELSE E.inner = 0 /\ E.outer = 1 /\ E.after = 0
+
+Next == Pair \/ Reset \/ End \/ Try \/ Throw \/ Handler \/ BodyEnd \/ HandlerEnd \/ After \/ Plain \/ Done \/ ExitOk \/ ExitUncaught
 Spec == Init /\ [][Next]_vars
 
 Accepted == LET d == TLCGet("stats").diameter IN
